@@ -328,6 +328,15 @@ func (c *FnCtx) specCall(env *Env, x *ast.CallExpr) Val {
 				fn = fmt.Sprintf("wrapS%d", bits)
 			}
 			return Val{T: app(fn, e.T), Typ: v.Typ}
+		case "atlock":
+			// atlock(e): e in the state right after the function's most recent acquisition of a
+			// monitor lock (what the critical section found), see monitor.go
+			if c.lastAcq == nil {
+				c.unsup(x, "atlock(): no monitor lock was acquired on this path")
+			}
+			oenv := *env
+			oenv.st = c.lastAcq.st
+			return c.eval(&oenv, x.Args[0])
 		case "same":
 			// same(a, b): identical representation (for strings: same bytes at the same address,
 			// which implies Go's ==, not the other way round)
